@@ -19,9 +19,17 @@ Inductive case :=
 (* one sidecar scenario (listener port, registry services, VirtualServices oldest first) with
    the virtual hosts observed from the real BuildSidecarOutboundVirtualHosts and a group of requests *)
 | VHosts (id : N) (c : ctx) (svcs : list (string * list N)) (vss : list (list string * list rule))
-         (observed : list vhost) (qs : list request).
+         (observed : list vhost) (qs : list request)
+(* one gateway scenario (Gateways: name and server hosts of the shared HTTP port; VirtualServices
+   oldest first) with the virtual hosts of the RouteConfiguration the real BuildHTTPRoutes
+   produced for the router proxy *)
+| GwHosts (id : N) (c : ctx) (gws : list (string * list string)) (vss : list gw_vs)
+          (observed : list vhost) (tab : re_tab) (qs : list request)
+(* the real SortVHostRoutes on a long route list *)
+| Sort (id : N) (input observed : list eroute) (tab : re_tab) (qs : list request).
 
-Definition case_id c := match c with Routes id _ _ _ _ _ => id | VHosts id _ _ _ _ _ => id end.
+Definition case_id c := match c with Routes id _ _ _ _ _ => id | VHosts id _ _ _ _ _ => id
+  | GwHosts id _ _ _ _ _ _ => id | Sort id _ _ _ _ => id end.
 
 (* ---------------------------------------------------------------- decidable equalities *)
 
@@ -136,6 +144,8 @@ Definition model_ok (c : case) : bool :=
       list_eqb vhost_eqb
         (assemble (map (fun v => {| vi_name := vh_name v; vi_domains := vh_domains v; vi_alt := [];
                                      vi_routes := vh_routes v |}) obs) [] [] []) obs
+  | GwHosts _ _ _ _ obs _ _ => nodup_lower (flat_map vh_domains obs)
+  | Sort _ input obs _ _ => list_eqb eroute_eqb (sort_vhost_routes input) obs
   end.
 
 (* the property itself, on the observed routes: the reference Envoy evaluation of what the
@@ -149,6 +159,21 @@ Definition prop_ok (c : case) : bool :=
       nodup_lower (flat_map vh_domains obs)
       && forallb (fun q => wf_req q &&
                    option_eqb action_eqb (eval_rc no_re obs q) (mesh_sem no_re cx svcs vss q)) qs
+  | GwHosts _ cx gws vss obs tab qs =>
+      forallb (fun q => wf_req q &&
+                 option_eqb action_eqb (eval_rc (re_of tab) obs q) (gw_sem (re_of tab) cx gws vss q)) qs
+  | Sort _ input obs tab qs =>
+      (* rule order is kept among the routes that are not catch-alls, catch-alls keep their order
+         and come last; and first-match evaluation agrees *)
+      let nc := filter (fun r => negb (is_catch_all r)) in
+      list_eqb eroute_eqb (nc obs) (nc input)
+      && list_eqb eroute_eqb (filter is_catch_all obs) (filter is_catch_all input)
+      && list_eqb eroute_eqb obs (nc obs ++ filter is_catch_all obs)
+      && forallb (fun q => option_eqb action_eqb (eval_routes (re_of tab) obs q)
+                             (match eval_routes (re_of tab) (nc input) q with
+                              | Some a => Some a
+                              | None => eval_routes (re_of tab) (filter is_catch_all input) q
+                              end)) qs
   end.
 
 Definition mismatches := check_all case_id model_ok prop_ok.
